@@ -179,6 +179,7 @@ func main() {
 								h = desync.NewHTTPIndexHandler(lix, writable, a)
 							}
 							sid, smiss := id.String(), missing.String()
+							zeroID := strings.Repeat("0", 64)
 							name := func(s string) string { return "/" + s[:4] + "/" + s + ext }
 							otherExt := ".cacnk"
 							if compressed {
@@ -187,7 +188,8 @@ func main() {
 							var paths map[string][]string
 							if kind == "chunk" {
 								paths = map[string][]string{
-									"ok": {name(sid)}, "okmissing": {name(smiss)},
+									// the all-zero ID is what Chunk.ID() yields for an object that cannot be decoded: a well-formed name like any other
+									"ok": {name(sid)}, "okmissing": {name(smiss), name(zeroID)},
 									"wrongprefix": {"/0000/" + sid + ext, "/" + sid + ext, "/x/" + sid[:4] + "/" + sid + ext},
 									"dotdot":      {"/" + sid[:4] + "/../" + sid[:4] + "/" + sid + ext, "/../sibling" + name(smiss), "/" + smiss[:4] + "/../../sibling/" + smiss[:4] + "/" + smiss + ext},
 									"encoded":     {"/%2e%2e/sibling" + name(smiss), "/" + sid[:4] + "/%2e%2e/" + sid[:4] + "/" + sid + ext, "/%252e%252e%252fsibling" + name(smiss), "/" + sid[:4] + "/%252e%252e%252f" + sid[:4] + "%252f" + sid + ext},
@@ -231,6 +233,12 @@ func main() {
 											target, tid := "", id
 											if pc == "okmissing" {
 												tid = missing
+											}
+											if kind == "chunk" && p == name(zeroID) {
+												tid = desync.ChunkID{}
+												if bc == "valid" { // no data hashes to the all-zero ID
+													continue
+												}
 											}
 											var body []byte
 											if kind == "chunk" {
